@@ -246,6 +246,25 @@ def rule_at(ctx):
               'advance': 'else: start_level = target_level begin_time = end_time', 'hold-last': 'return start_level'}
     for k, v in checks.items():
         ctx.ob('C19.at', f'{f.fq}:{k}', v in src, f'evaluator must contain `{v}`', f.node, mod)
+    # every stage that does not contain the time is passed over by advancing the state (its target becomes the next start level, its
+    # end the next begin time) - unconditionally: a stage that is skipped (continue) or left early makes the following stage
+    # interpolate from the wrong level (a zero-duration stage is an instant jump, not nothing)
+    loops = [l for l in walk_local(f.node) if isinstance(l, ast.For) and 'num_stages' in norm(l.iter)]
+    adv_ok, why = False, 'stage loop not found'
+    if len(loops) == 1:
+        lp = loops[0]
+        skips = [norm(x) for x in ast.walk(lp) if isinstance(x, (ast.Continue, ast.Break))]
+        tests = [x for x in lp.body if isinstance(x, ast.If) and any(norm(a) == 'end_time' for a in ast.walk(x.test) if isinstance(a, ast.Name))]
+        if skips:
+            why = f'the stage loop contains {skips}'
+        elif len(tests) != 1:
+            why = 'the containment test `time < end_time` is not a direct statement of the loop'
+        else:
+            adv = {norm(x) for x in tests[0].orelse}
+            early = [norm(x) for x in lp.body[:lp.body.index(tests[0])] if isinstance(x, (ast.If, ast.Return))]
+            adv_ok = {'start_level = target_level', 'begin_time = end_time'} <= adv and not early
+            why = f'else-branch {sorted(adv)}; conditional statements before the test: {early}'
+    ctx.ob('C19.at', f'{f.fq}:advance-unconditional', adv_ok, f'a stage that does not contain the time must always advance start level and begin time; {why}', f.node, mod)
     ctx.ob('C19.at', f'{f.fq}:linear', 'return pos * (target_level - start_level) + start_level' in src, 'linear segment interpolates between the neighbouring levels', f.node, mod)
     ctx.ob('C19.at', f'{f.fq}:step-hold', "if shape == shape_names['step']: return target_level elif shape == shape_names['hold']: return start_level" in src,
            'step jumps to the target, hold keeps the start level', f.node, mod)
@@ -382,6 +401,8 @@ def run(ctx):
 
 
 MUTANTS = [
+    dict(rule='C19.at', name='zero-duration stages skipped by the evaluator (seed C19-f)', file='sc3/synth/envelope.py',
+         old="            end_time += target_dur\n\n            if time < end_time:", new="            end_time += target_dur\n            if target_dur <= 0:\n                continue\n\n            if time < end_time:"),
     dict(rule='C19.ctor', name='range maps from [0, max] instead of [min, max]', file='sc3/synth/envelope.py',
          old="        obj.levels = utl.list_narop(bi.linlin, obj.levels, min, max, lo, hi)", new="        obj.levels = utl.list_narop(bi.linlin, obj.levels, 0, max, lo, hi)"),
     dict(rule='C19.ctor', name='duration setter divides by the plain sum of one channel', file='sc3/synth/envelope.py',
